@@ -17,7 +17,7 @@ STUBS = []
 ASSUMPTIONS = ["tmpfs symlink semantics"]
 
 U = [{"a": 0, "b": "x y"}, {"a": 1, "b": "x y"}, {"a": 0, "b": "é.z"}, {"a": 1, "b": "é.z"}, {"a": 0}, {"a": 1, "n": {"c": 0}}]
-BAD = [{"a": "1", "b": "x y"}, {"a": "p/q"}]
+BAD = [{"a": "1", "b": "x y"}, {"a": "p/q"}, {"a": "", "b": "x y"}]
 
 
 def _walk(view):
@@ -107,7 +107,7 @@ def _exact(view, project, ids, custom):
 def _set_workspace(project, mask, bad, U=None):
     U = U or globals()["U"]
     want = {signac.job.calc_id(U[i]) for i in range(len(U)) if mask >> i & 1}
-    bad_sps = [BAD[i] for i in range(2) if bad >> i & 1]
+    bad_sps = [BAD[i] for i in range(len(BAD)) if bad >> i & 1]
     want |= {signac.job.calc_id(sp) for sp in bad_sps}
     for job in list(project):
         if job.id not in want:
@@ -198,11 +198,11 @@ def _homogeneous(project, ids):
 
 
 def h_view(m1: int, m2: int, bad2: int, sel: int, custom: bool):
-    assert 0 <= m1 < 64 and 0 <= m2 < 64 and 0 <= bad2 <= 2 and 0 <= sel <= 3 and part_ok(m2)
-    assert tier() != "quick" or (m1 in (0, 3, 15, 21, 48, 63) and bad2 <= 1)
+    assert 0 <= m1 < 64 and 0 <= m2 < 64 and bad2 in (0, 1, 2, 4) and 0 <= sel <= 3 and part_ok(m2)
+    assert tier() != "quick" or (m1 in (0, 3, 15, 21, 48, 63) and bad2 in (0, 1, 4))
     assert sel < 2 or (not custom and bad2 == 0 and m1 in (0, 3, 63))
     fresh_path()
-    m1, m2, bad2, sel, custom = ci(m1, 0, 63), ci(m2, 0, 63), ci(bad2, 0, 2), ci(sel, 0, 3), cb(custom)
+    m1, m2, bad2, sel, custom = ci(m1, 0, 63), ci(m2, 0, 63), ci(bad2, 0, 4), ci(sel, 0, 3), cb(custom)
     with nt():
         problems = _case(m1, m2, bad2, sel, custom)
     reached()
@@ -231,7 +231,7 @@ def h_view__reach(m1: int, m2: int, bad2: int, sel: bool, custom: bool):
 
 # a state point key that is itself called 'job' (the name of the links), and values that are path expressions
 UJ = [{"job": 0}, {"job": 1}, {"job": 0, "b": 1}, {"a": ".."}, {"a": "."}, {"a": "x"}]
-UK = [{"a": ""}, {"a": "job"}, {"a": "x"}, {"a": "job", "b": 1}, {"a": "y", "job": 2}, {"a": "x", "job": 2}]   # a value spelled like the link name / the empty string
+UK = [{"a": "x"}, {"a": "y"}, {"a": "x", "job": 1}, {"a": "x", "job": 2}, {"a": "x", "job": 3}, {"a": "job"}]   # a key called like the links that only some jobs have (more values than a: it comes later in the path); a value spelled like the link name
 
 
 def h_view_names(m1: int, m2: int, sel: int):
@@ -247,7 +247,7 @@ def h_view_names(m1: int, m2: int, sel: int):
 
 def h_view_names2(m1: int, m2: int, sel: int):
     assert 0 <= m1 < 64 and 0 <= m2 < 64 and 0 <= sel <= 1 and part_ok(m2)
-    assert tier() != "quick" or m1 in (0, 1, 4, 5, 7, 48)
+    assert tier() != "quick" or m1 in (0, 1, 3, 28, 35, 63)
     fresh_path()
     m1, m2, sel = ci(m1, 0, 63), ci(m2, 0, 63), ci(sel, 0, 1)
     with nt():
